@@ -184,6 +184,7 @@ class PythonCodeGenerator(CodeGenerator):
         super().__init__(ode, *args, **kwargs)
 
         self._printer = GotranPythonCodePrinter()
+        self._check_printed_names()
 
         setattr(self, "_formatter", get_formatter(format=format))
 
